@@ -170,7 +170,8 @@ class MultiCorrector(Corrector):
                     seen[sug] = op(seen[sug], score)
                 else:
                     seen[sug] = score
-        return iteritems(seen)
+        # Corrector.suggest() expects (score, suggestion) pairs
+        return ((score, sug) for sug, score in iteritems(seen))
 
 
 # Query correction
